@@ -899,7 +899,7 @@ func (m *Model) decoratorInMediatedCycle(d *Dec, role map[int]interface{}) bool 
 // viewCycleThrough: cand lies on a cycle in the view of some single scope S below (or equal to) its home:
 // the digraph over the registrations visible from S whose edges go from a constructor to the NEAREST
 // provider, as seen from S, of each of its single parameters (optional ones included) and to every feeder
-// visible from S of each of its non-soft group parameters. dig verifies, for a Provide, the graph of the
+// visible from S of each of its group parameters (soft ones included). dig verifies, for a Provide, the graph of the
 // home scope and of every descendant, and each of those graphs holds at least these edges (it links a
 // constructor to ALL providers visible from the scope, not only the nearest): such a cycle must be
 // rejected ("closes a cycle among constructors as seen from any single scope").
@@ -912,9 +912,9 @@ func (m *Model) viewCycleThrough(cand *Reg) bool {
 			var out []*Reg
 			for _, p := range r.F.Params {
 				if p.K.Group != "" {
-					if !p.Soft {
-						out = append(out, m.feeders(S, p.K)...)
-					}
+					// soft groups too: the property lists "value-group edges" without exception (a soft
+					// edge never triggers a constructor, but the Provide-time verdict is about the graph)
+					out = append(out, m.feeders(S, p.K)...)
 					continue
 				}
 				if x := m.nearest(S, p.K); x != nil {
